@@ -22,9 +22,21 @@ REPO = os.environ.get("VERIF_REPO", "/repo")
 # at the same time as a check of /repo without replacing its harness binary
 BUILD = os.path.join(VERIF, "build") if REPO == "/repo" else \
     os.path.join(VERIF, "build", "alt-" + hashlib.md5(REPO.encode()).hexdigest()[:10])
-LEAN = os.path.join(VERIF, "lean")
+LEAN_SRC = os.path.join(VERIF, "lean")
+# the Lean project: /verif/lean for /repo; for another tree (a seeded change, a sweep copy) a private copy of it next to
+# that tree's other build output — the regenerated Model/Tables.lean and the relinked driver of one tree must never
+# be seen by a check of another tree running at the same time
+LEAN = LEAN_SRC if REPO == "/repo" else os.path.join(BUILD, "lean")
+if LEAN != LEAN_SRC:
+    os.makedirs(BUILD, exist_ok=True)
+    subprocess.run(["rsync", "-a", "--delete", "--exclude", "Model/Tables.lean", LEAN_SRC + "/", LEAN + "/"], check=True)
+    if not os.path.exists(os.path.join(LEAN, "Model", "Tables.lean")):
+        shutil.copy(os.path.join(LEAN_SRC, "Model", "Tables.lean"), os.path.join(LEAN, "Model", "Tables.lean"))
 HARNESS_BIN = os.path.join(BUILD, "verifharness")
-DRIVER_BIN = os.path.join(LEAN, ".lake", "build", "bin", "nsdriver")
+DRIVER_BUILT = os.path.join(LEAN, ".lake", "build", "bin", "nsdriver")
+# the driver that is run is a private copy of the one `lake build` linked (taken after the build of this process), so
+# that a relink started by another process cannot take it away in the middle of a stream
+DRIVER_BIN = os.path.join(BUILD, "nsdriver-%d" % os.getpid())
 NPROC = min(16, os.cpu_count() or 4)
 
 GOENV = dict(os.environ, GOFLAGS="-mod=mod", GOPROXY="off", GOSUMDB="off", GOTOOLCHAIN="local",
@@ -202,8 +214,10 @@ def regenerate_tables():
     path = os.path.join(LEAN, "Model", "Tables.lean")
     old = open(path).read() if os.path.exists(path) else ""
     if old != text:
-        with open(path, "w") as f:
+        tmp = path + ".%d.tmp" % os.getpid()
+        with open(tmp, "w") as f:
             f.write(text)
+        os.replace(tmp, path)          # never a half-written file for a build running next to this one
     return None
 
 
@@ -237,6 +251,20 @@ def theorem_modules(theorems):
             if t not in mods and re.search(r"^theorem %s\b" % re.escape(t), body, re.M):
                 mods[t] = mod
     return mods
+
+
+def _private_driver():
+    if not os.path.exists(DRIVER_BIN):
+        os.makedirs(BUILD, exist_ok=True)
+        for _ in range(50):
+            try:
+                shutil.copy2(DRIVER_BUILT, DRIVER_BIN + ".tmp")
+                os.replace(DRIVER_BIN + ".tmp", DRIVER_BIN)
+                break
+            except FileNotFoundError:
+                time.sleep(0.2)        # being relinked right now
+        import atexit
+        atexit.register(lambda: os.path.exists(DRIVER_BIN) and os.remove(DRIVER_BIN))
 
 
 def build_lean(targets=None):
@@ -435,6 +463,7 @@ def run_go(cases, binary=None, race=False):
 
 
 def run_lean(lines):
+    _private_driver()
     return _run_sharded([DRIVER_BIN], lines)
 
 
